@@ -180,6 +180,11 @@ func c03Run(c *h.Ctx) {
 			continue
 		}
 		c03One(c, id, cs, sr)
+		if i%8 == 5 && cs.Signer != "none" && cs.Signer != "" {
+			// several packets built with one signer object before any of them is serialised (an
+			// engine signs all its commands with one signer): each must still decode to what was supplied
+			c12ReuseAs(c, "C03", id+"-reuse", cs, sr)
+		}
 	}
 }
 
